@@ -1331,14 +1331,18 @@ func stepLeader(r *raft, m *pb.Message) error {
 			if cc != nil {
 				alreadyPending := r.pendingConfIndex > r.raftLog.applied
 				alreadyJoint := len(r.trk.Config.Voters[1]) > 0
-				wantsLeaveJoint := len(cc.AsV2().Changes) == 0
+				// NB: an empty change list alone does not make a change a
+				// leave-joint; one that asks for an explicit or implicit joint
+				// transition enters a joint config (see ConfChangeV2.LeaveJoint).
+				wantsLeaveJoint := cc.AsV2().LeaveJoint()
+				noChanges := len(cc.AsV2().Changes) == 0
 
 				var failedCheck string
 				if alreadyPending {
 					failedCheck = fmt.Sprintf("possible unapplied conf change at index %d (applied to %d)", r.pendingConfIndex, r.raftLog.applied)
 				} else if alreadyJoint && !wantsLeaveJoint {
 					failedCheck = "must transition out of joint config first"
-				} else if !alreadyJoint && wantsLeaveJoint {
+				} else if !alreadyJoint && noChanges {
 					failedCheck = "not in joint state; refusing empty conf change"
 				}
 
